@@ -60,6 +60,9 @@ REGISTRY = {
                 trusted=['engine/lean/extract.py', 'Lean kernel + Mathlib', 'oracles of checks/bounded/C14.py'],
                 technique='Lean proofs of label invariance for the extracted given-partition modularity_und/_dir/_und_sign values; relabelling checks over all partitions n<=5 (bounded) for the other consumers'),
 }
+REGISTRY['C16'] = dict(level='exploration', bounded='checks.bounded.C16', pyvc=[('contracts.clustering', 'get_components#reject', None, None)],
+                       trusted=['oracles of checks/bounded/C16.py (own union-find)'] + PYVC_TRUSTED,
+                       technique='bounded stand-in: get_components on ALL labelled undirected graphs n<=5/6 against an independent union-find; only the rejection of asymmetric input is discharged deductively (pyvc prefix contract)')
 for _pid in ['C03', 'C08', 'C16', 'C18', 'C19', 'C20']:
     REGISTRY.setdefault(_pid, dict(level='exploration', bounded='checks.bounded.%s' % _pid, trusted=['oracles of checks/bounded/%s.py' % _pid],
                                    technique='bounded stand-in: the property\'s contract executed on the real functions over exhaustive small scopes'))
